@@ -11,6 +11,7 @@ EXPLANATION = (
     "'_'-joined string and of MD5."
     ' Fifth round: [HASH-DEPS history] add_data interpreted on one module state for five concrete messages in a row (another definition with the same PGN and key values must hash differently, a non-key change must not change the hash, a key change must, a repeat gives the same hash): state the module keeps between calls is part of the run. [HASH-ORDER] the order of add_data and apply_preferred_units is a violation only when the conversion writes raw_value / id / part_of_primary_key (otherwise either order gives the same hash).'
     ' Eighth round: [HASH-DEPS] hash-computed-over-all-decoded-fields -- under every option world add_data is called while the message still holds exactly the fields the generated decoder returned (absent key fields included).'
+    ' Ninth round: [HASH-DEPS] hash-is-a-function-of-the-message-alone -- on the interpreted decode path (mapping on, every option world) two definitions of one PGN number with the key flags on different positions are fed in the orders X,Y,X and Y,X,Y; what the call site binds to add_data is handed to the interpreted add_data, and every hash must equal the one a fresh decoder gives the same message and the one add_data alone computes. An optional add_data parameter is read at its default by the stand-alone clauses; when the call site binds one and the decode path is not interpretable the rule refuses.'
 )
 ASSUMPTIONS = ["CPython ast parser", "canboat.json is the oracle", "hashlib.md5 is deterministic across processes",
                "dataclass positional binding follows annotated-field order of message.py"]
@@ -22,5 +23,6 @@ def run(chk, program, tier):
     rules_msg.hash_rules(chk, program)
     from .. import rules_filter as F_
     F_.hash_sees_every_field(chk, program)
+    F_.hash_through_decoder(chk, program)
     chk.unit('programs', chk.units.get('decoders_matched', 0))
     chk.floor('field_rows', chk.units.get('field_rows', 0), 3000)
